@@ -2780,6 +2780,37 @@ def loop_exit_edges(body, blocks):
     return out
 
 
+def _stable_operand(t):
+    """built from arguments, constants, named items and their fields only: its value cannot change along a path"""
+    if t[0] in ("arg", "const", "item"):
+        return True
+    if t[0] == "field":
+        return _stable_operand(t[1])
+    if t[0] == "variant":
+        return _stable_operand(t[1])
+    if t[0] in ("bin",):
+        return _stable_operand(t[2]) and _stable_operand(t[3])
+    if t[0] == "un":
+        return _stable_operand(t[2])
+    return False
+
+
+def _decided_twice(path):
+    """the same boolean test over immutable operands appears twice on the path with different outcomes (NaN-safe: only the
+    identical comparison is considered, not comparisons that merely contradict each other over a total order)"""
+    seen = {}
+    for dt, label, bb in path.conds:
+        if dt[0] == "discr" or isinstance(label, tuple):
+            continue
+        c = as_cmp(nosite(deep_strip(dt)))
+        if c is None or not (_stable_operand(c[1]) and _stable_operand(c[2])):
+            continue
+        truth = cond_truth(label)
+        if seen.setdefault(c, truth) != truth:
+            return True
+    return False
+
+
 class Row:
     __slots__ = ("path", "sel", "facts", "bools", "ret", "end", "retn", "_body")
 
@@ -2800,6 +2831,8 @@ def table(body, max_paths=20000):
             else:
                 r.bools.append((nosite(deep_strip(dt)), label))
         r.facts = path_facts(p, body)
+        if _decided_twice(p):
+            continue  # the same comparison of immutable quantities taken both ways: not a path of the program
         r.end = p.end
         r.ret = nosite(deep_strip(path_return_term(body, p))) if p.end == "return" else None
         r.retn = norm_return(body.facts, r.ret) if r.ret is not None else None  # `x.map(f)` shown as Ok{f(x)} / Some{f(x)}
